@@ -319,6 +319,7 @@ class Run:
                     # watchdog: every enumerated space is finite and sized for minutes; a shard that is still running after
                     # the budget means some call of the library does not terminate (or takes absurdly long) on a case
                     stuck = [futs[f] for f in futs if not f.done()]
+                    self.caps_hit.append('watchdog: %d shard(s) not finished' % len(stuck))
                     for j in stuck[:8]:
                         raw = bytes(_SHM[j[3] * 1024:j[3] * 1024 + 1024]).rstrip(b'\0').decode(errors='replace')
                         self.add_violation({'family': _FAMS[j[0]].name, 'case': {'shard': jsonable(j[1]), 'last_published_case': raw},
@@ -334,6 +335,7 @@ class Run:
                     try:
                         self._run_bfs(ex, i, f)
                     except FuturesTimeout:
+                        self.caps_hit.append('watchdog: BFS level not finished')
                         self.add_violation({'family': f.name, 'case': {'depth_reached': self.max_depth}, 'msg': 'BFS level did not finish within the %d s watchdog: a library call does not terminate in reasonable time' % WATCHDOG_S[self.tier],
                                             'expected': 'termination', 'observed': 'still running', 'classifier': None})
                         for proc in list(getattr(ex, '_processes', {}).values()):
